@@ -143,6 +143,8 @@ class URI(object):
 
     def __setstate__(self, state):
         self.protocol, self.object, self.sockname, self.host, self.port = state
+        if self.protocol == "PYROMETA" and isinstance(self.object, (list, tuple)):
+            self.object = set(self.object)  # serializers without a set type (json, msgpack) deliver the metadata tags as a list
 
 
 class _ExceptionWrapper(object):
